@@ -31,7 +31,10 @@ import (
 var c02backends = []string{"answers", "answers-1-then-closes", "resets-after-first-read", "closes-at-once", "silent",
 	// the backend does not read (socket buffers of 32 bytes fill up, the client's writer blocks in its write), then
 	// only the read side of the proxy's connection ends: the backend half-closes, or sends something undecodable
-	"never-reads-then-half-closes", "never-reads-then-garbage"}
+	"never-reads-then-half-closes", "never-reads-then-garbage",
+	// the backend answers the first command and then sends something that is not RESP ($-7): the client gives the
+	// connection up while other senders are still handing requests over
+	"answers-1-then-malformed"}
 
 func c02backend(b *vnet.VConn, mode string) {
 	var buf []byte
@@ -64,6 +67,12 @@ func c02backend(b *vnet.VConn, mode string) {
 			}
 			answered++
 			if mode == "answers-1-then-closes" && answered == 1 {
+				b.Close()
+				return
+			}
+			if mode == "answers-1-then-malformed" && answered == 1 {
+				b.Write([]byte("$-7\r\n"))
+				io.Copy(io.Discard, b)
 				b.Close()
 				return
 			}
